@@ -26,10 +26,13 @@
      msg    = hex <nlists> REP [hex <nblocks> REP [<nvars> REP [hex yv]]] <- | dec> yv(dict: meta) <0|1 dropped> <0|1 synthetic>
               <I|O> dec(flags) <p|j|r|a> hex(extra) <l|t> <n> REP yv(acks)
      lentry = <- | S hex>(region name) <- | G hex>(agent id) <- | S hex>(summary cache) yv(dict: meta) <U msg | E yv> hex(summ oracle)
-     tables = ; REP [hex16 hex] ; REP [hex16 hex]     repr(float) and date-string tables (the parsers use their inverses)
+     tables = ; REP [hex16 hex] ; REP [hex16 hex] ; REP [hex hex hex <2|3|4|q|s>]
+              repr(float) and date-string tables (the parsers use their inverses); template facts read by
+              _restore_value_classes: message, block, variable -> coordinate class or s = Fixed/Variable and not probably_binary
    commands:
      XM msg tables        prints  <wf_msg><plain_msg><wfn> | yv(to_dict true) | hex(notation) | msg-or-ERR(from_dict . to_dict)
                                   | msg-or-ERR(from_dict . parse_notation . format_notation) | yv(to_dict false) | msg(norm_msg)
+                                  | msg-or-ERR(_restore_value_classes of the former) | <deser_classes>
      XD yv                prints  msg-or-ERR (Message.from_dict of any value)
      XV yv tables         prints  hex(notation) | yv(norm) | <plain>
      XE <n> REP lentry tables
@@ -265,17 +268,24 @@ let yv_string v = with_buf (fun b -> pr_yv b v)
 let msg_string m = with_buf (fun b -> pr_msg b m)
 let optmsg_string = function Some m -> msg_string m | None -> "ERR"
 
-(* the rest of the line: ; (hex16 hex)* ; (hex16 hex)*  *)
+(* the rest of the line: ; (hex16 hex)* ; (hex16 hex)* ; (hex hex hex kind)*  *)
 let tables_ () =
   let rec split cur acc = function
     | [] -> List.rev (List.rev cur :: acc)
     | ";" :: r -> split [] (List.rev cur :: acc) r
     | w :: r -> split (w :: cur) acc r in
   let rec pairs = function k :: t :: r -> (String.lowercase_ascii k, bytes_of_hex t) :: pairs r | _ -> [] in
+  let rec quads = function
+    | a :: b :: c :: k :: r ->
+      ((bytes_of_hex a, bytes_of_hex b, bytes_of_hex c),
+       (match k with "2" -> KCoord CVec2 | "3" -> KCoord CVec3 | "4" -> KCoord CVec4 | "q" -> KCoord CQuat | _ -> KStringy)) :: quads r
+    | _ -> [] in
   let parts = split [] [] !toks in
   toks := [];
-  let nth_or i = if List.length parts > i then pairs (List.nth parts i) else [] in
-  (nth_or 1, nth_or 2)
+  let nth_or i = if List.length parts > i then List.nth parts i else [] in
+  let tt = quads (nth_or 3) in
+  let tk = fun (mn : n list) (bn : n list) (vn : n list) -> (try Some (List.assoc (mn, bn, vn) tt) with Not_found -> None) in
+  (pairs (nth_or 1), pairs (nth_or 2), tk)
 let render tbl = fun (x : n) -> (try List.assoc (hex_of_n x) tbl with Not_found -> [n_of_int 63])
 let unrender tbl = fun (t : n list) ->
   let rec find = function [] -> None | (k, v) :: r -> if v = t then Some (n_of_hex k) else find r in find tbl
@@ -332,32 +342,34 @@ let () =
                                             :: List.map (fun c -> string_of_int (int_of_ascii c)) t))
         | "XM" ->
           let m = msg_ () in
-          let (rt, dt) = tables_ () in
+          let (rt, dt, tk) = tables_ () in
           let rreal = render rt and rdate = render dt and preal = unrender rt and pdate = unrender dt in
           let d = to_dict true m in
           let nb = notation rreal rdate d in
           let back = (match of_notation preal pdate nb with Some v -> from_dict v | None -> None) in
+          let rest = (match back with Some x -> restore_msg tk x | None -> None) in
           print_endline (String.concat " | "
             [ b01 (wf_msg m) ^ b01 (plain_msg m) ^ b01 (wfn (msg_tree m)); yv_string d; hex_of_bytes nb;
-              optmsg_string (from_dict d); optmsg_string back; yv_string (to_dict false m); msg_string (norm_msg m) ])
+              optmsg_string (from_dict d); optmsg_string back; yv_string (to_dict false m); msg_string (norm_msg m);
+              optmsg_string rest; b01 (deser_classes tk m) ])
         | "XD" -> let v = yv_ () in print_endline (optmsg_string (from_dict v))
         | "XV" ->
           let v = yv_ () in
-          let (rt, dt) = tables_ () in
+          let (rt, dt, _) = tables_ () in
           print_endline (String.concat " | " [ hex_of_bytes (notation (render rt) (render dt) v); yv_string (norm v); b01 (plain v) ])
         | "XE" ->
           let n = int_ () in
           let es = rep n lentry_ in
-          let (rt, dt) = tables_ () in
+          let (rt, dt, tk) = tables_ () in
           let rreal = render rt and rdate = render dt and preal = unrender rt and pdate = unrender dt in
           let summ = fun (p : payload) -> (try List.assoc p (List.map (fun (e, su) -> (e.le_payload, su)) es) with Not_found -> []) in
           let one (e, _) =
             let d = entry_to_dict rreal rdate summ e in
             String.concat " | "
-              [ b01 (entry_ok rreal rdate preal pdate e) ^ b01 (std_meta e.le_payload e.le_meta);
+              [ b01 (entry_ok rreal rdate preal pdate tk e) ^ b01 (std_meta e.le_payload e.le_meta);
                 (match d with Some v -> yv_string v | None -> "ERR");
-                optlentry_string (match d with Some v -> entry_from_dict preal pdate v | None -> None);
-                optlentry_string (norm_entry summ e) ] in
+                optlentry_string (match d with Some v -> entry_from_dict preal pdate tk v | None -> None);
+                optlentry_string (norm_entry summ tk e) ] in
           print_endline (String.concat " || " (List.map one es))
         | "XF" ->
           let rp = bool_ () in
